@@ -75,9 +75,6 @@ def merge(results):
         m["evaluations"] += int(r.get("evaluations", 0))
         _merge_counters(m["counters"], r.get("counters", {}))
         m["violations"].extend(r.get("violations", []))
-        for s in r.get("samples", []):
-            if len(m["samples"]) < 8:
-                m["samples"].append(s)
         if "digests" in r:
             m["digests"].update(r["digests"])
         m["distinct_sum"] += int(r.get("distinct", 0))
@@ -87,6 +84,14 @@ def merge(results):
                 m["assumptions"].append(a)
         if "exhaustive" in r:
             m["exhaustive"] = bool(r["exhaustive"]) if m["exhaustive"] is None else (m["exhaustive"] and bool(r["exhaustive"]))
+    # samples: round-robin over shards so that every lane is represented
+    depth = 0
+    while len(m["samples"]) < 8 and depth < 4:
+        for r in results:
+            ss = r.get("samples", [])
+            if depth < len(ss) and len(m["samples"]) < 8 and ss[depth] not in m["samples"]:
+                m["samples"].append(ss[depth])
+        depth += 1
     return m
 
 
@@ -210,7 +215,7 @@ def orchestrate(pid, tier, seed, replay_path=None):
         "evaluations": m["evaluations"],
         "distinct_nontrivial": distinct,
         "rule": fin.get("rule", ""),
-        "samples": m["samples"][:6] or ["none"],
+        "samples": m["samples"][:8] or ["none"],
         "monitors": m["counters"],
         "shards": m["shards"],
         "inconclusive_reasons": inconclusive,
